@@ -146,6 +146,26 @@ impl<T: Clone> Stack<T> {
     }
 }
 
+/// Verification hooks (compiled only with `--cfg pest_parser_pest_verif`): build a `Stack` from its
+/// three internal vectors and read them back, so that a single operation can be replayed from an
+/// arbitrary representation state.
+#[cfg(pest_parser_pest_verif)]
+impl<T: Clone> Stack<T> {
+    #[doc(hidden)]
+    pub fn verif_from_parts(cache: Vec<T>, popped: Vec<T>, lengths: Vec<(usize, usize)>) -> Self {
+        Stack {
+            cache,
+            popped,
+            lengths,
+        }
+    }
+
+    #[doc(hidden)]
+    pub fn verif_parts(&self) -> (&[T], &[T], &[(usize, usize)]) {
+        (&self.cache, &self.popped, &self.lengths)
+    }
+}
+
 impl<T: Clone> Index<Range<usize>> for Stack<T> {
     type Output = [T];
 
